@@ -40,17 +40,46 @@ def s1_submit(ctx):
     # who enqueues / dequeues
     M = ctx.M
     puts, gets = [], []
-    for fn in M.all_funcs():
-        al = set()
-        for n in ast.walk(fn.node):
-            if isinstance(n, (ast.For, ast.comprehension)):
-                it = n.iter
-                while isinstance(it, ast.Call) and isinstance(it.func, ast.Attribute):
-                    it = it.func.value
-                if mentions_attr(it, 'open_orders'):
+    # names that denote the queue table or one of its queues, per function; handed-over arguments make the callee's parameter such a name (fixpoint)
+    alias = {fn.qn: set() for fn in M.all_funcs()}
+
+    def denotes(e, al):
+        while isinstance(e, ast.Subscript) or (isinstance(e, ast.Call) and isinstance(e.func, ast.Attribute) and e.func.attr in ('values', 'items', 'keys', 'get')):
+            e = e.value if isinstance(e, ast.Subscript) else e.func.value
+        return (isinstance(e, ast.Attribute) and e.attr == 'open_orders') or (isinstance(e, ast.Name) and e.id in al)
+    changed = True
+    rounds = 0
+    while changed and rounds < 6:
+        changed = False
+        rounds += 1
+        for fn in M.all_funcs():
+            al = alias[fn.qn]
+            n0 = len(al)
+            for n in ast.walk(fn.node):
+                if isinstance(n, (ast.For, ast.comprehension)) and denotes(n.iter, al):
                     al |= {x.id for x in ast.walk(n.target) if isinstance(x, ast.Name)}
-            elif isinstance(n, ast.Assign) and mentions_attr(n.value, 'open_orders'):
-                al |= {x.id for t in n.targets for x in ast.walk(t) if isinstance(x, ast.Name)}
+                elif isinstance(n, ast.Assign) and denotes(n.value, al):
+                    al |= {x.id for t in n.targets for x in ast.walk(t) if isinstance(x, ast.Name)}
+                elif isinstance(n, ast.Call):
+                    hits = [(i_, a) for i_, a in enumerate(n.args) if denotes(a, al)] + [(k.arg, k.value) for k in n.keywords if k.arg and denotes(k.value, al)]
+                    if hits:
+                        try:
+                            tg, how, _ = M.resolve_any(fn, n)
+                        except Exception:
+                            tg = []
+                        for t in tg:
+                            ps_ = t.pos_params
+                            if t.cls is not None and not t.is_static and ps_ and ps_[0] in ('self', 'cls') and isinstance(n.func, ast.Attribute):
+                                ps_ = ps_[1:]
+                            for i_, a in hits:
+                                pname = i_ if isinstance(i_, str) else (ps_[i_] if i_ < len(ps_) else None)
+                                if pname and pname not in alias.setdefault(t.qn, set()):
+                                    alias[t.qn].add(pname)
+                                    changed = True
+            if len(al) != n0:
+                changed = True
+    for fn in M.all_funcs():
+        al = alias[fn.qn]
         for n in ast.walk(fn.node):
             if isinstance(n, ast.Call) and isinstance(n.func, ast.Attribute) and (mentions_attr(n.func.value, 'open_orders') or
                                                                                     (isinstance(n.func.value, ast.Name) and n.func.value.id in al)):
@@ -62,8 +91,10 @@ def s1_submit(ctx):
     ctx.floor('C04.S3', 'dequeue sites', len(gets), 1)
     for fn, n in puts:
         ctx.require(fn.qn == 'SimulatedBroker.submit_order', 'C04.S3', 'orders are enqueued only by submit_order (%s)' % fn.qn, fn.site(n), key='C04.S3|put|%s' % fn.qn)
+    from ..lib import private_closure
+    upd = private_closure(M, ['SimulatedBroker.update'], same_class=False)
     for fn, n in gets:
-        ctx.require(fn.cls is not None and fn.cls.name == 'SimulatedBroker' and (fn.name == 'update' or fn.name.startswith('_')), 'C04.S3',
+        ctx.require(fn.qn in upd or (fn.cls is not None and fn.cls.name == 'SimulatedBroker' and fn.name.startswith('_')), 'C04.S3',
                     'orders are dequeued only inside the broker update (%s)' % fn.qn, fn.site(n), key='C04.S3|get|%s' % fn.qn)
     ws = writers_of_attr(M, 'open_orders')
     for w in ws:
@@ -73,8 +104,9 @@ def s1_submit(ctx):
             v = w.node.value if isinstance(w.node, ast.Assign) else None
             name = M.ext_name(w.fn.mod, v.func) if isinstance(v, ast.Call) else None
             ctx.require(name == 'queue.Queue', 'C04.S3', 'each portfolio gets a FIFO queue.Queue', w.where, 'queue type is %s' % name, key='C04.S3|fifo')
+    inside_update = upd      # update and the private helpers only it reaches
     for fn, n in calls_named(M, '_execute_order'):
-        ctx.require(fn.qn == 'SimulatedBroker.update', 'C04.S3', '_execute_order is called only from update (%s)' % fn.qn, fn.site(n), key='C04.S3|exec-caller|%s' % fn.qn)
+        ctx.require(fn.qn in inside_update, 'C04.S3', '_execute_order is called only from update (%s)' % fn.qn, fn.site(n), key='C04.S3|exec-caller|%s' % fn.qn)
     # Order.direction is the sign of the quantity, written once
     ws = [w for w in writers_of_attr(M, 'direction') if w.fn.cls is not None and w.fn.cls.name == 'Order']
     ctx.require(len(ws) == 1 and w_is_copysign(ctx, 'Order.__init__'), 'C04.S5', 'Order.direction = sign of the quantity, set once in the constructor',
@@ -197,22 +229,37 @@ def s2_s3_update(ctx):
                 sort_site = lp.site
         if not ctx.require(batch is not None, 'C04.S5', 'the batch is sorted before execution', lp.site, 'loop iterates %s' % fmt(it)[:160], key='C04.S5|sorted'):
             continue
+        # what one batch element is: a pair or a two-field record holding the dequeued order and the portfolio it came from
+        from ..symex import NT_FIELDS
+        app = [t for t in T.subterms(batch) if t[0] == 'call' and t[1] == ('ext', 'APPENDED')]
+        ev_ = app[0][2][1] if len(app) == 1 else None
+        order_forms, tag_forms, ptag = None, None, None
+        el = ('elem', it, lp.id)
+        if ev_ is not None and ev_[0] == 'tuple' and len(ev_[1]) == 2:
+            for i_ in (0, 1):
+                if T.teq(ev_[1][i_], g.value):
+                    order_forms, tag_forms, ptag = [('sub', el, num(i_))], [('sub', el, num(1 - i_))], ev_[1][1 - i_]
+        elif ev_ is not None and ev_[0] == 'new' and ev_[1] in NT_FIELDS and len(ev_[2]) == 2:
+            fs = NT_FIELDS[ev_[1]]
+            d_ = dict(ev_[2])
+            for i_, f_ in enumerate(fs):
+                if T.teq(d_[f_], g.value):
+                    o_ = fs[1 - i_]
+                    order_forms, tag_forms, ptag = [('attr', el, f_), ('sub', el, num(i_))], [('attr', el, o_), ('sub', el, num(1 - i_))], d_[o_]
         # key: direction of the order component, ascending -> sells (-1) before buys (+1); stable sort keeps submission order per side
-        elem_order = None
-        if x.args.get('order') is not None:
-            elem_order = x.args['order']
-        okk = srt_key is not None and srt_key[0] == 'lambda' and srt_key[1] == 1 and srt_key[2][0] == 'attr' and srt_key[2][2] == 'direction'
-        if okk:
-            comp = srt_key[2][1]        # e.g. _0[1]
-            exp = T.replace(comp, lambda t: ('elem', it, lp.id) if t == ('bv', 0) else None)
-            okk = elem_order is not None and T.teq(exp, elem_order)
+        okk = False
+        if srt_key is not None and order_forms:
+            if srt_key[0] == 'lambda' and srt_key[1] == 1 and srt_key[2][0] == 'attr' and srt_key[2][2] == 'direction':
+                exp = T.replace(srt_key[2][1], lambda t: el if t == ('bv', 0) else None)
+                okk = any(T.teq(exp, o_) for o_ in order_forms)
+            elif srt_key[0] == 'call' and srt_key[1] == ('ext', 'operator.attrgetter') and len(srt_key[2]) == 1 and srt_key[2][0][0] == 'str':
+                okk = any(o_[0] == 'attr' and srt_key[2][0][1] == o_[2] + '.direction' for o_ in order_forms)
         ctx.require(okk, 'C04.S5', 'the sort key is exactly the direction of the order (stable sort: sells first, submission order within a side)',
                     sort_site, 'key=%s' % (fmt(srt_key) if srt_key else None), key='C04.S5|key')
         ctx.require(rev is None or rev == T.FALSE, 'C04.S5', 'ascending sort (sells, direction -1, first)', sort_site, 'reverse=%s' % (fmt(rev) if rev else None),
                     key='C04.S5|reverse')
-        # the sorted list is exactly the drained list: [] extended only by (portfolio, get()) tuples
-        app = [t for t in T.subterms(batch) if t[0] == 'call' and t[1] == ('ext', 'APPENDED')]
-        okb = len(app) == 1 and app[0][2][1][0] == 'tuple' and len(app[0][2][1][1]) == 2 and T.teq(app[0][2][1][1][1], g.value)
+        # the sorted list is exactly the drained list: [] extended only by (portfolio, get()) pairs / records
+        okb = len(app) == 1 and order_forms is not None
         roots = [t for t in T.subterms(batch) if t[0] == 'list' and t[1] == ()]
         keyed = [t for t in T.subterms(batch) if t[0] == 'call' and t[1] == ('ext', 'SETITEM') and len(t[2]) == 3
                  and any(T.teq(s_, g.value) for s_ in T.subterms(t[2][2]))]
@@ -233,11 +280,9 @@ def s2_s3_update(ctx):
         ctx.require(okb and len(roots) >= 1, 'C04.S3', 'the executed batch is exactly the list of dequeued orders (nothing dropped or added)', g.site,
                     'batch = %s' % fmt(batch)[:200], key='C04.S3|batch')
         if okb:
-            ptag = app[0][2][1][1][0]
             ctx.require(T.teq(g.loc, ('sub', A('self', 'open_orders'), ptag)), 'C04.S3', 'each order is tagged with the portfolio whose queue it came from', g.site,
                         key='C04.S3|tag')
-        el = ('elem', it, lp.id)
-        ok = x.args.get('portfolio_id') == ('sub', el, num(0)) and x.args.get('order') == ('sub', el, num(1)) and x.args.get('dt') == V('dt')
+        ok = bool(order_forms) and x.args.get('portfolio_id') in tag_forms and x.args.get('order') in order_forms and x.args.get('dt') == V('dt')
         ctx.require(ok, 'C04.S3', 'each order is executed against its own portfolio at the update time', x.site, {k: fmt(v)[:60] for k, v in x.args.items()},
                     key='C04.S3|exec-args')
         ctx.sample({'rule': 'C04.S3/S5', 'batch': fmt(batch)[:200], 'sort_key': fmt(srt_key) if srt_key else None})
